@@ -116,7 +116,81 @@ def judge_membership(sc, dump):
     return msgs
 
 
+def gen_passive(rng, sid):
+    """the routing table settles BY ITSELF (the members' own push and balancer timers; the harness only watches) after the
+    member that was coordinator at start-up has gone and a member has joined while partitions hold data: every previous owner
+    is drained and dropped from the owners lists, no departed member stays listed"""
+    import dmaplib
+    d = "c13p%d" % sid
+    r = rng.choice([1, 2])
+    keys = [dmaplib.hx("%s-k%02d" % (d, i)) for i in range(40)]
+    ops = [{"op": "put", "c": rng.choice(["emb0", "emb1", "emb2", "cc"]), "d": d, "k": k, "v": dmaplib.hx("v" + k[-4:])} for k in keys]
+    ops += [{"op": "stop", "m": 0, "c": rng.choice(["graceful", "abrupt"])},
+            {"op": "waitpassive", "ms": 30000},
+            {"op": "join"},
+            {"op": "waitpassive", "ms": 30000}]
+    for k in keys[::3]:
+        ops.append({"op": "get", "c": "emb1", "d": d, "k": k})
+    cluster = {"members": 3, "replicas": r, "partitions": rng.choice([7, 13]), "table": 4096, "evict_workers": 1,
+               "push_ms": 400, "balancer_ms": 300}
+    return {"id": sid, "cluster": cluster, "ops": ops}
+
+
+def judge_passive(sc, obs):
+    if len(obs) < len(sc["ops"]):
+        return ("env", "scenario aborted")
+    for i, (op, ob) in enumerate(zip(sc["ops"], obs)):
+        r = str(ob.get("r"))
+        if op["op"] == "join" and r != "ok":
+            return ("env", "join failed: " + r)
+        if op["op"] == "waitpassive" and r != "ok":
+            if "sees" in r and "members" in r:
+                return ("env", r)            # memberlist has not converged: the environment
+            return (i, "30 s after the %s the routing table has not settled by itself: %s" % (
+                "join" if sc["ops"][i - 1]["op"] == "join" else "loss of the start-up coordinator", r[len("unstable:"):]))
+    return None
+
+
+def passive_part(res):
+    import memberlib
+    scs = [gen_passive(vlib.rng_for(res.seed, PID, "passive", j), 60000 + j) for j in range(2 if res.tier == "quick" else 8)]
+    results = memberlib.run_membership(scs, jobs=4)
+    bad = env = 0
+    for sc in scs:
+        r = results[sc["id"]]
+        if r.get("env", {}).get("error"):
+            env += 1
+            continue
+        v = judge_passive(sc, r["obs"])
+        if v and v[0] == "env":
+            env += 1
+            continue
+        if v:
+            # a whole-cluster scenario: reported when it shows again in one of two re-runs
+            again = None
+            for attempt in range(2):
+                r2 = memberlib.run_membership([sc])[sc["id"]]
+                v2 = None if r2.get("env", {}).get("error") else judge_passive(sc, r2["obs"])
+                if v2 and v2[0] != "env":
+                    again = (r2, v2)
+                    break
+            if again:
+                bad += 1
+                res.violation({"kind": "impl-violates-property", "part": "passive", "cluster": sc["cluster"], "scenario": {"ops": sc["ops"]},
+                               "failed_step": again[1][0], "impl_trace": again[0]["obs"][max(0, again[1][0] - 2):again[1][0] + 1],
+                               "predicate": {"name": "the routing table settles by itself", "verdict": again[1][1]}, "seed": res.seed})
+    res.coverage["passive_settling"] = {"scenarios": len(scs), "environment": env, "failures": bad,
+                                        "rule": "3 members with data, the start-up coordinator stops, a member joins; push interval 400 ms, balancer 300 ms, "
+                                                "the harness only watches: one owner per partition, no departed member listed, within 30 s"}
+
+
 def run(res):
+    _run(res)
+    if not getattr(res, "harness_error", None):
+        passive_part(res)
+
+
+def _run(res):
     proofs_ok = vlib.common_obligations(res, PID)
     if getattr(res, "harness_error", None):
         res.violation({"kind": "harness-build", "failed": "correspondence: the harness no longer compiles against /repo",
@@ -379,8 +453,26 @@ def slim_dump(d):
     return out
 
 
+def replay_passive(res, obj, path):
+    import memberlib
+    ok, out = vlib.harness_build()
+    if not ok:
+        raise vlib.CheckError(out)
+    sc = {"id": 0, "cluster": obj["cluster"], "ops": obj["scenario"]["ops"]}
+    for attempt in range(3):
+        r = memberlib.run_membership([sc])[0]
+        v = None if r.get("env", {}).get("error") else judge_passive(sc, r["obs"])
+        print(json.dumps({"attempt": attempt, "verdict": v}))
+        if v and v[0] != "env":
+            print("VIOLATION property=%s replay=%s" % (res.pid, path))
+            return 1
+    return 0
+
+
 def replay(res, path):
     obj = json.load(open(path))
+    if obj.get("part") == "passive":
+        return replay_passive(res, obj, path)
     sc = obj.get("scenario")
     if not sc:
         print("replay has no scenario (names a broken obligation): %s" % obj.get("failed"))
